@@ -161,9 +161,8 @@ def seq_filter_map(I, node, args, st):
     F = _fm_ufs[key]
     # defining axioms of the homomorphism (instantiated by the solver where an opaque prefix is split)
     axk = ('fm-axioms', key)
-    if axk not in st.ghost:
-        st.ghost = dict(st.ghost)
-        st.ghost[axk] = True
+    if axk not in I.axiom_keys:
+        I.axiom_keys.add(axk)
         sa = z3.Const('fm!a', z3.SeqSort(zsort(ety)))
         sb = z3.Const('fm!b', z3.SeqSort(zsort(ety)))
         xv = z3.Const('fm!x', zsort(ety))
@@ -173,10 +172,10 @@ def seq_filter_map(I, node, args, st):
         t = I.truth(st, p)
         t = z3.BoolVal(t) if isinstance(t, bool) else t
         otyx = shape_type(I, st, v)
-        st.pc.append(z3.ForAll([sa, sb], F(z3.Concat(sa, sb)) == z3.Concat(F(sa), F(sb)), patterns=[F(z3.Concat(sa, sb))]))
-        st.pc.append(z3.ForAll([xv], F(z3.Unit(xv)) == z3.If(t, z3.Unit(to_z(v, otyx)), z3.Empty(z3.SeqSort(zsort(otyx)))),
+        I.axioms.append(z3.ForAll([sa, sb], F(z3.Concat(sa, sb)) == z3.Concat(F(sa), F(sb)), patterns=[F(z3.Concat(sa, sb))]))
+        I.axioms.append(z3.ForAll([xv], F(z3.Unit(xv)) == z3.If(t, z3.Unit(to_z(v, otyx)), z3.Empty(z3.SeqSort(zsort(otyx)))),
                                patterns=[F(z3.Unit(xv))]))
-        st.pc.append(F(z3.Empty(z3.SeqSort(zsort(ety)))) == z3.Empty(osort))
+        I.axioms.append(F(z3.Empty(z3.SeqSort(zsort(ety)))) == z3.Empty(osort))
     I.trusted.add('seq_filter_map over an unknown prefix is an uninterpreted function; distributed over ++, unit, ite (monoid homomorphism)')
 
     def go(e):
